@@ -59,6 +59,13 @@ CLAIMED = {
          "Real runs compare every slot of shuffled multi-observable histories bit-for-bit with the point requested alone.",
          "Trusted: Coq kernel+vm_compute; harness; that an object's result depends only on its own kinematics and the configuration is assumed by the theorem and checked "
          "bitwise by the patrol and by the ScaleVariations correspondence (shared manager across nf).", "4 C14"),
+ "C16": ("exhaustive evaluation inside Coq (vm_compute) of a hand-written outcome model (validation, TMC availability, module/class and dictionary look-ups of the Combiner model "
+         "over the regenerated inventory) on the complete discrete lattice, sharded per kind; model tied by differential correspondence on real run_yadism calls",
+         "Proof over the complete lattice of 25920 cells (6 kinds x 5 heavynesses x EM/NC/CC x 5 schemes with FONLL parts x NfFF 3..6 x PTO 0..3 x TMC off/on): no cell ends in an "
+         "internal look-up failure except the documented gap (polarised g1 at PTO 3, a recorded known finding); malformed kinematics and TMC for kinds without formulas are rejected "
+         "in every configuration. Four defects found this way were fixed (7fbf7d5a, 0955516d, 9b5f9d9a, 465a87b3). Sampled real runs compare the outcome class and check finiteness.",
+         "Trusted: Coq kernel+vm_compute; tools/tables.py; harnesses; the model is tied by sampled correspondence; NaN/inf from third-party numerics only checked on samples; "
+         "argument-vector reads are C18; asy NC F2/FL cells cannot run here (adani).", "4 C16"),
  "C06": ("Coq theorems (case analysis, Qle reasoning) on a hand-written model of update_fns / Atlas walls / nf_default over rationals + infinity; "
          "update_fns tied exhaustively, nf_default by correspondence at, one ulp below and above every wall",
          "Proof: nf_default = 3 + #{heavy quarks with matching scale <= Q2} for every rational Q2 >= 0 (active exactly at the threshold, inactive below), monotone; "
